@@ -34,7 +34,9 @@ fn gen_spec(rng: &mut Rng) -> CmdSpec {
             _ => Act::Count,
         });
         if a.takes_values() && rng.chance(1, 4) {
-            a.num_args = Some((1, 2));
+            // bounded ranges of several sizes; occurrences are filled anywhere up to the bound
+            let hi = *rng.pick(&[2usize, 2, 3, 5]);
+            a.num_args = Some((rng.range(1, 2).min(hi), hi));
         } else if a.takes_values() && rng.chance(1, 4) {
             // an occurrence may come without a value (kept as an empty occurrence, or filled
             // from default_missing_value)
@@ -89,9 +91,14 @@ fn gen_seq(rng: &mut Rng, c: &CmdSpec, thorough: bool) -> Vec<Occ> {
             let n = if lo == 0 && rng.chance(1, 3) {
                 0
             } else if hi > 1 && rng.coin() {
-                2
+                // up to the declared maximum, which is where an occurrence closes by itself
+                if rng.coin() {
+                    hi
+                } else {
+                    rng.range(lo.max(1), hi)
+                }
             } else {
-                1
+                lo.max(1)
             };
             (0..n).map(|j| format!("{}o{}v{}", a.id, *k, j)).collect()
         } else {
